@@ -1,1 +1,99 @@
-fn main(){}
+//! miri-sched: concurrent parses under Miri's seeded scheduler (preemption inside rule
+//! bodies, data-race and UB detection).  Results of 3 threads must equal the sequential ones.
+use std::sync::Arc;
+
+use simcorpus::{dispatch, Ctx, Entry, VARIANTS};
+
+const INPUTS: &[(&str, &[&str])] = &[
+    ("stmt", &["a.b[1]=c+2*d;", "call f(1,2);", "a+;", "((a));"]),
+    ("anbn", &["aabb.", "aabc.", "aab."]),
+    ("twins", &["ab:c1,d", "a:b:c", "a1,b:c"]),
+    ("calc", &["1+2*3-4/5", "(1+2)*3", "1+"]),
+    ("calc_indirect", &["1+-2*3", "-(1-2)*-3", "(1"]),
+    ("hooks_pure", &["<ab>text;12 a", "!ab 12", "<abcd>long;"]),
+    ("hooks_ctx", &["ab a a", "ab a a a a a a", "ab a a z"]),
+    ("ws_pos", &["a→«x y» +b", "é→ű # c\n+k", "a→"]),
+    ("enums", &["a1b()c2;a3 y", "b(a1b(x)2);b()z", "a;1"]),
+    ("pal", &["abba", "aabaa", "abab"]),
+    ("incl", &["(a=b,c,d=e)", "(a,b=c,d)", "(a"]),
+    ("names_a", &["a,b1,12", "a;b1"]),
+    ("names_b", &["_x;A;3.5", "a,b1"]),
+];
+
+struct Rng(u64);
+impl Rng {
+    fn next(&mut self) -> u64 {
+        self.0 = self.0.wrapping_add(0x9E3779B97F4A7C15);
+        let mut z = self.0;
+        z = (z ^ (z >> 30)).wrapping_mul(0xBF58476D1CE4E5B9);
+        z = (z ^ (z >> 27)).wrapping_mul(0x94D049BB133111EB);
+        z ^ (z >> 31)
+    }
+}
+
+#[derive(Clone)]
+struct Job {
+    variant: &'static str,
+    rule: &'static str,
+    input: &'static str,
+    entry: Entry,
+    ctx: Ctx,
+}
+
+fn run(j: &Job) -> (String, Ctx) {
+    dispatch(j.variant, j.rule, j.input, j.entry, j.ctx).expect("known job")
+}
+
+fn main() {
+    let seed: u64 = std::env::args().nth(1).and_then(|s| s.parse().ok()).unwrap_or(1);
+    let njobs: usize = std::env::args().nth(2).and_then(|s| s.parse().ok()).unwrap_or(20);
+    let mut rng = Rng(seed);
+    let mut jobs = Vec::new();
+    while jobs.len() < njobs {
+        let v = &VARIANTS[(rng.next() % VARIANTS.len() as u64) as usize];
+        let inputs = INPUTS.iter().find(|(g, _)| *g == v.grammar).map(|(_, i)| *i).unwrap_or(&[""]);
+        let input = inputs[(rng.next() % inputs.len() as u64) as usize];
+        // parse_with_trace prints a lot; keep it to a minority of the jobs
+        let entry = match rng.next() % 8 {
+            0 => Entry::Trace,
+            1 | 2 => Entry::Noop,
+            3 => Entry::Sim,
+            _ => Entry::Parse,
+        };
+        jobs.push(Job { variant: v.name, rule: v.exported[0], input, entry, ctx: Ctx { retval: (rng.next() % 50) as u32, a_count: (rng.next() % 6) as u32, calls: 0 } });
+    }
+    // sequential reference (the same process, before any thread exists)
+    let expected: Vec<(String, Ctx)> = jobs.iter().map(run).collect();
+    let jobs = Arc::new(jobs);
+    let expected = Arc::new(expected);
+    let mut handles = Vec::new();
+    for t in 0..3u64 {
+        let jobs = jobs.clone();
+        let expected = expected.clone();
+        handles.push(std::thread::spawn(move || {
+            let mut bad = Vec::new();
+            let n = jobs.len();
+            for k in 0..n {
+                // each thread walks the job list in its own order, so equal jobs overlap
+                let i = (k * (2 * t as usize + 1) + t as usize * 7) % n;
+                let got = run(&jobs[i]);
+                if got != expected[i] {
+                    bad.push(format!("thread {t} job {i} ({}, {:?}): expected {:?}, got {:?}", jobs[i].variant, jobs[i].input, expected[i], got));
+                }
+            }
+            bad
+        }));
+    }
+    let mut bad = Vec::new();
+    for h in handles {
+        bad.extend(h.join().expect("thread"));
+    }
+    if bad.is_empty() {
+        println!("MIRI_THREADS ok seed={seed} jobs={njobs} threads=3");
+    } else {
+        for b in &bad {
+            println!("DIFFERENCE {b}");
+        }
+        std::process::exit(1);
+    }
+}
